@@ -63,3 +63,138 @@ theorem get?_set_other (l : List (κ × ν)) (k k2 : κ) (v : ν) (h : k ≠ k2)
   simp [set, get?, h, get?_erase_other l k k2 h]
 
 end RNacos.AL
+
+namespace RNacos.AL
+
+variable {κ : Type} {ν : Type} [DecidableEq κ]
+
+/-- keys are unique -/
+def NodupKeys (l : List (κ × ν)) : Prop := (l.map (·.1)).Nodup
+
+theorem get?_eq_none_iff (l : List (κ × ν)) (k : κ) : get? l k = none ↔ k ∉ l.map (·.1) := by
+  induction l with
+  | nil => simp
+  | cons p rest ih =>
+    obtain ⟨k', v⟩ := p
+    by_cases h : k' = k
+    · simp [get?, h]
+    · simp only [get?, h, if_false, List.map_cons, List.mem_cons]
+      rw [ih]
+      constructor
+      · intro hn hc; rcases hc with hc | hc
+        · exact h hc.symm
+        · exact hn hc
+      · intro hn hc; exact hn (Or.inr hc)
+
+theorem erase_of_get?_none (l : List (κ × ν)) (k : κ) (h : get? l k = none) : erase l k = l := by
+  induction l with
+  | nil => rfl
+  | cons p rest ih =>
+    obtain ⟨k', v⟩ := p
+    by_cases h1 : k' = k
+    · simp [get?, h1] at h
+    · simp only [get?, h1, if_false] at h
+      simp [erase, h1, ih h]
+
+theorem mem_keys_erase (l : List (κ × ν)) (k k2 : κ) : k2 ∈ (erase l k).map (·.1) ↔ k2 ≠ k ∧ k2 ∈ l.map (·.1) := by
+  induction l with
+  | nil => simp [erase]
+  | cons p rest ih =>
+    obtain ⟨k', v⟩ := p
+    by_cases h1 : k' = k
+    · subst h1
+      simp only [erase, if_true, ih, List.map_cons, List.mem_cons]
+      constructor
+      · rintro ⟨a, b⟩; exact ⟨a, Or.inr b⟩
+      · rintro ⟨a, b | b⟩
+        · exact absurd b a
+        · exact ⟨a, b⟩
+    · simp only [erase, h1, if_false, List.map_cons, List.mem_cons, ih]
+      constructor
+      · rintro (a | ⟨a, b⟩)
+        · exact ⟨by rw [a]; exact h1, Or.inl a⟩
+        · exact ⟨a, Or.inr b⟩
+      · rintro ⟨a, b | b⟩
+        · exact Or.inl b
+        · exact Or.inr ⟨a, b⟩
+
+theorem nodupKeys_erase (l : List (κ × ν)) (k : κ) (h : NodupKeys l) : NodupKeys (erase l k) := by
+  unfold NodupKeys at *
+  induction l with
+  | nil => simp [erase]
+  | cons p rest ih =>
+    obtain ⟨k', v⟩ := p
+    simp only [List.map_cons, List.nodup_cons] at h
+    by_cases h1 : k' = k
+    · simp only [erase, h1, if_true]; exact ih h.2
+    · simp only [erase, h1, if_false, List.map_cons, List.nodup_cons]
+      refine ⟨?_, ih h.2⟩
+      intro hc
+      exact h.1 ((mem_keys_erase rest k k').mp hc).2
+
+theorem nodupKeys_set (l : List (κ × ν)) (k : κ) (v : ν) (h : NodupKeys l) : NodupKeys (set l k v) := by
+  unfold set NodupKeys
+  simp only [List.map_cons, List.nodup_cons]
+  refine ⟨?_, nodupKeys_erase l k h⟩
+  intro hc
+  exact ((mem_keys_erase l k k).mp hc).1 rfl
+
+/-- with unique keys, erasing a present key removes exactly its entry -/
+theorem erase_split (l : List (κ × ν)) (k : κ) (v : ν) (hn : NodupKeys l) (hg : get? l k = some v) :
+    ∃ l1 l2, l = l1 ++ (k, v) :: l2 ∧ erase l k = l1 ++ l2 := by
+  induction l with
+  | nil => simp at hg
+  | cons p rest ih =>
+    obtain ⟨k', v'⟩ := p
+    unfold NodupKeys at hn
+    simp only [List.map_cons, List.nodup_cons] at hn
+    by_cases h1 : k' = k
+    · subst h1
+      simp only [get?, if_true, Option.some.injEq] at hg
+      subst hg
+      have hnone : get? rest k' = none := (get?_eq_none_iff rest k').mpr hn.1
+      exact ⟨[], rest, rfl, by simp [erase, erase_of_get?_none rest k' hnone]⟩
+    · simp only [get?, h1, if_false] at hg
+      obtain ⟨l1, l2, e1, e2⟩ := ih hn.2 hg
+      exact ⟨(k', v') :: l1, l2, by rw [e1]; rfl, by simp [erase, h1, e2]⟩
+
+theorem length_erase_some (l : List (κ × ν)) (k : κ) (v : ν) (hn : NodupKeys l) (hg : get? l k = some v) :
+    (erase l k).length + 1 = l.length := by
+  obtain ⟨l1, l2, e1, e2⟩ := erase_split l k v hn hg
+  rw [e2, e1]; simp; omega
+
+theorem count_erase_some (p : κ × ν → Bool) (l : List (κ × ν)) (k : κ) (v : ν) (hn : NodupKeys l)
+    (hg : get? l k = some v) :
+    ((erase l k).filter p).length + (if p (k, v) then 1 else 0) = (l.filter p).length := by
+  obtain ⟨l1, l2, e1, e2⟩ := erase_split l k v hn hg
+  rw [e2, e1]
+  simp only [List.filter_append, List.length_append, List.filter_cons]
+  split <;> simp <;> omega
+
+theorem get?_some_mem (l : List (κ × ν)) (k : κ) (v : ν) (h : get? l k = some v) : (k, v) ∈ l := by
+  induction l with
+  | nil => simp at h
+  | cons p rest ih =>
+    obtain ⟨k', v'⟩ := p
+    by_cases h1 : k' = k
+    · subst h1; simp [get?] at h; subst h; simp
+    · simp only [get?, h1, if_false] at h
+      exact List.mem_cons_of_mem _ (ih h)
+
+theorem mem_get?_some (l : List (κ × ν)) (k : κ) (v : ν) (hn : NodupKeys l) (h : (k, v) ∈ l) : get? l k = some v := by
+  induction l with
+  | nil => simp at h
+  | cons p rest ih =>
+    obtain ⟨k', v'⟩ := p
+    unfold NodupKeys at hn
+    simp only [List.map_cons, List.nodup_cons] at hn
+    simp only [List.mem_cons, Prod.mk.injEq] at h
+    rcases h with ⟨rfl, rfl⟩ | h
+    · simp [get?]
+    · have hk : k' ≠ k := by
+        intro e; subst e
+        exact hn.1 (List.mem_map.mpr ⟨(k', v), h, rfl⟩)
+      simp only [get?, hk, if_false]
+      exact ih hn.2 h
+
+end RNacos.AL
